@@ -9,9 +9,11 @@ use quote::ToTokens;
 use syn::visit::Visit;
 
 mod front;
+mod subpat;
 
-struct Finder {
-    found: Vec<syn::ItemEnum>,
+
+pub struct Finder {
+    pub found: Vec<syn::ItemEnum>,
 }
 
 fn derives_logos(e: &syn::ItemEnum) -> bool {
@@ -33,7 +35,7 @@ impl<'ast> Visit<'ast> for Finder {
     }
 }
 
-fn hex(b: &[u8]) -> String {
+pub fn hex(b: &[u8]) -> String {
     let mut s = String::new();
     for x in b {
         write!(s, "{x:02x}").unwrap();
@@ -108,6 +110,15 @@ fn main() {
                 args[3..].iter().map(PathBuf::from).collect()
             };
             cmd_defs(&out, &files);
+        }
+        Some("subpats") => {
+            let out = PathBuf::from(&args[2]);
+            let files: Vec<PathBuf> = if args[3] == "--list" {
+                std::fs::read_to_string(&args[4]).unwrap().lines().map(PathBuf::from).collect()
+            } else {
+                args[3..].iter().map(PathBuf::from).collect()
+            };
+            subpat::cmd_subpats(&out, &files);
         }
         Some("front") => front::main(&args[2..]),
         _ => {
